@@ -8,6 +8,7 @@ import (
 	"fmt"
 	"net/url"
 	"os"
+	"reflect"
 	"sync"
 
 	"github.com/google/jsonschema-go/jsonschema"
@@ -30,6 +31,41 @@ func MkPool(vals []*ref.Val) []Inst {
 	out := make([]Inst, len(vals))
 	for i, v := range vals {
 		out[i] = Inst{Text: v.JSON(), Val: v, Plain: v.Plain()}
+	}
+	return out
+}
+
+// GoArrays returns the pool with every JSON array carried by a Go array ([n]any) instead of a
+// slice, at every depth (the validator must treat the two kinds alike); only instances that
+// contain an array are returned.
+func GoArrays(pool []Inst) []Inst {
+	var conv func(x any) (any, bool)
+	conv = func(x any) (any, bool) {
+		switch t := x.(type) {
+		case []any:
+			a := reflect.New(reflect.ArrayOf(len(t), reflect.TypeOf((*any)(nil)).Elem())).Elem()
+			for i, e := range t {
+				c, _ := conv(e)
+				if c != nil {
+					a.Index(i).Set(reflect.ValueOf(c))
+				}
+			}
+			return a.Interface(), true
+		case map[string]any:
+			m, any := map[string]any{}, false
+			for k, e := range t {
+				c, ch := conv(e)
+				m[k], any = c, any || ch
+			}
+			return m, any
+		}
+		return x, false
+	}
+	var out []Inst
+	for _, in := range pool {
+		if c, changed := conv(in.Plain); changed {
+			out = append(out, Inst{Text: in.Text + " /*arrays as [n]any*/", Val: in.Val, Plain: c})
+		}
 	}
 	return out
 }
